@@ -61,11 +61,11 @@ struct Hello { int ver; int ems; /* 0 = offered, -1 = not offered */ std::vector
 
 struct World {
     Ctx &c; Server A, B; sslKeys_t *ckeys = nullptr; int auth = AUTH_RSA;
-    std::vector<Client> cl; std::vector<Cred> creds; std::vector<Live> live; std::vector<std::unique_ptr<Pair>> flood_open;
-    int next_uid = 1; int registrations = 0; bool flooded = false, any_failure = false, any_fatal = false, keys_changed = false, expired_jump = false;
+    std::vector<Client> cl; std::vector<Cred> creds; std::vector<Live> live; std::vector<std::unique_ptr<Pair>> flood_open; std::vector<int> live_flood_cred;
+    int next_uid = 1; int registrations = 0; bool flooded = false, disturbed = false, any_failure = false, any_fatal = false, keys_changed = false, expired_jump = false;
     // what made the history "interesting" before the latest resume attempt
     bool pre_expiry = false, pre_fatal = false, pre_flood = false, pre_keyrm = false;
-    std::string trace; std::multiset<std::string> kinds; int estream = 1;
+    std::string trace; std::multiset<std::string> kinds; int estream = 1; int force_keep = -1;   // scripted prefixes: 1 keep the next session open, 0 close it
     explicit World(Ctx &cc) : c(cc) {}
     ~World() {
         live.clear(); flood_open.clear();
@@ -174,6 +174,11 @@ Attempt run_hs(World &w, Server &srv, sslSessionId_t *sid, const Hello &h, const
                     p.c.delivered.size() == d1 + sizeof m2 && memcmp(p.c.delivered.data() + d1, m2, sizeof m2) == 0 && p.s.alive() && p.c.alive();
     }
     a.outcome = (a.s_done && a.c_done) ? (a.s_res ? O_RESUMED : O_FULL) : O_FAILED;
+    if (w.c.verbose) {
+        auto ev = [](Endpoint &e) { std::string s; for (auto &x : e.events) s += fmt("(%d,%d,%d)", x.kind, x.a, x.b); return s; };
+        fprintf(stderr, "    hs: outcome=%s tent=%d s_done=%d c_done=%d s_res=%d c_res=%d | client rc=%d alert_recv=%d ev=%s | server rc=%d alert_recv=%d ev=%s\n", out_name[a.outcome], a.tent, a.s_done, a.c_done, a.s_res, a.c_res,
+                p.c.last_rc, p.c.fatal_alert_recv, ev(p.c).c_str(), p.s.last_rc, p.s.fatal_alert_recv, ev(p.s).c_str());
+    }
     p.mitm = nullptr;   // the lambda captured locals
     return a;
 }
@@ -182,8 +187,8 @@ int find_cred_by_secret(const World &w, const Bytes &s) { for (size_t i = 0; i <
 int find_cred_by_ident(const World &w, int kind, const Bytes &id) { for (size_t i = 0; i < w.creds.size(); i++) if (w.creds[i].kind == kind && w.creds[i].ident == id) return (int) i; return -1; }
 
 // After a completed handshake: which credential does the client hold now?  Creates the model record for a newly issued one.
-int harvest(World &w, int ci, Attempt &a, int issuer, const Hello &h) {
-    Client &k = w.cl[ci]; Pair &p = *a.p; unsigned char buf[4096];
+int harvest(World &w, sslSessionId_t *sid, int ci, Attempt &a, int issuer, const Hello &h) {
+    struct { sslSessionId_t *sid; } k{ sid }; Pair &p = *a.p; unsigned char buf[4096];
     if (a.tls13) {
         int n = c14_sid_psk_id(k.sid, buf, sizeof buf); if (n <= 0 || n > (int) sizeof buf) return -1;
         Bytes id(buf, buf + n); int e = find_cred_by_ident(w, CK_PSK13, id); if (e >= 0) return e;
@@ -207,6 +212,7 @@ int harvest(World &w, int ci, Attempt &a, int issuer, const Hello &h) {
     Bytes id(idb, idb + in); int e = find_cred_by_ident(w, CK_ID, id); if (e >= 0) return e;
     // the id the client stored must be the one the server registered
     unsigned char sidb[32]; int sn = c14_session_id(p.s.ssl, sidb);
+    if (sn == 0) return -1;   // the server issued no id (cache full of in-use entries): the library leaves the client's old sid content untouched
     VF_CHECK(sn == in && memcmp(sidb, idb, in) == 0, "client-server-session-id-differ", "client stored %s, server has %s; %s", hex(idb, in).c_str(), hex(sidb, sn).c_str(), w.trace.c_str());
     cr.kind = CK_ID; cr.ident = id; w.creds.push_back(cr); return (int) w.creds.size() - 1;
 }
@@ -228,13 +234,14 @@ bool expired(const Cred &cr, int64_t slack) { return now_ms() - cr.issue_ms > cr
 
 // first violated clause of the property for presenting credential cr unmodified with this hello to server A; "" if it may resume
 std::string why_not(const World &w, const Cred &cr, const Hello &h) {
-    if (cr.issuer != 0) return "resumed-with-foreign-ticket";
-    if (cr.kind != CK_ID && !has_key(w.A, cr.key_uid)) return "resumed-with-removed-ticket-key";
-    if (expired(cr, 1000)) return "resumed-expired";
+    std::string k = std::string(":") + ck_name[cr.kind];
+    if (cr.issuer != 0) return "resumed-with-foreign-ticket" + k;
+    if (cr.kind != CK_ID && !has_key(w.A, cr.key_uid)) return "resumed-with-removed-ticket-key" + k;
+    if (expired(cr, 1000)) return "resumed-expired" + k;
     if (cr.kind == CK_ID && cr.invalidated) return "resumed-after-fatal-alert";
-    if (h.ver != cr.ver) return "resumed-version-mismatch";
-    if (cr.kind != CK_PSK13 && (h.ems == 0) != cr.ems) return "resumed-ems-mismatch";
-    if (!h.suites.empty() && std::find(h.suites.begin(), h.suites.end(), cr.suite) == h.suites.end()) return "resumed-suite-mismatch";
+    if (h.ver != cr.ver) return "resumed-version-mismatch" + k;
+    if (cr.kind != CK_PSK13 && (h.ems == 0) != cr.ems) return "resumed-ems-mismatch" + k;
+    if (!h.suites.empty() && std::find(h.suites.begin(), h.suites.end(), cr.suite) == h.suites.end()) return "resumed-suite-mismatch" + k;
     return "";
 }
 
@@ -269,10 +276,12 @@ void judge(World &w, Attempt &a, int ci, int base, const Hello &h, const std::st
         VF_CHECK(a.data_ok, "full-data-roundtrip-failed", "application data did not round-trip after a full handshake; %s", ctx.c_str());
     }
     // converse, only for calm histories: an eligible credential presented honestly does resume
-    if (honest && base >= 0 && !w.flooded && !w.any_failure && !w.any_fatal && !w.keys_changed && w.registrations <= 28 && !w.cl[ci].dirty) {
+    static const bool strict = getenv("C14_STRICT") != nullptr;   // diagnostic mode: also expect resumption after attacker commands that should not affect other clients' cache entries (availability, outside the property)
+    if (honest && base >= 0 && !w.flooded && (!w.disturbed || strict) && !w.any_failure && !w.any_fatal && !w.keys_changed && w.registrations <= 28 && !w.cl[ci].dirty) {
         const Cred &cr = w.creds[base];
         bool near_edge = llabs((now_ms() - cr.issue_ms) - cr.life_ms) <= 3000;
-        if (!near_edge && !expired(cr, 0) && why_not(w, cr, h).empty())
+        bool suite_free = cr.kind == CK_PSK13 && h.suites.empty();   // TLS 1.3 negotiates the suite first; with the default list the server may pick another hash and then (correctly) ignores the PSK
+        if (!near_edge && !suite_free && !expired(cr, 0) && why_not(w, cr, h).empty())
             VF_CHECK(a.outcome == O_RESUMED, "eligible-credential-not-resumed", "%s", ctx.c_str());
     }
     // model update: a connection bound to a cached session that dies with a fatal alert invalidates that session
@@ -282,6 +291,7 @@ void judge(World &w, Attempt &a, int ci, int base, const Hello &h, const std::st
 void keep_or_close(World &w, Tape &t, Attempt &a, int ci, int cred) {
     if (a.outcome == O_FAILED || !a.p) return;
     unsigned m = (unsigned) t.below(4);   // 0 close_notify + delete, 1 keep open, 2 delete without closure, 3 keep open
+    if (w.force_keep == 1) m = 1; else if (w.force_keep == 0) m = 0;
     if ((m == 1 || m == 3) && w.live.size() < 6) { w.live.push_back(Live{ std::move(a.p), cred, ci, a.tls13 }); return; }
     if (m == 0) { a.p->c.send_close(); a.p->run(); a.p->s.send_close(); a.p->run(); }
     a.p.reset();
@@ -336,7 +346,7 @@ static void prop(Tape &t, Ctx &c) {
         if (a.outcome == O_FAILED) { w.any_failure = true; k.dirty = true; c.count(fmt("full-failed:%s:%s", ver_name(ver), su.name)); return; }
         VF_CHECK(a.outcome == O_FULL && !a.tent, "resumed-without-credential", "a handshake without any stored credential was resumed; %s", w.trace.c_str());
         VF_CHECK(a.data_ok && !a.c_res, "full-data-roundtrip-failed", "full handshake: data round trip failed or client claims resumption; %s", w.trace.c_str());
-        int x = harvest(w, ci, a, srv_i, h); k.cred = x;
+        int x = harvest(w, k.sid, ci, a, srv_i, h); k.cred = x;
         if (x >= 0) c.count(fmt("issued:%s", ck_name[w.creds[x].kind])); else c.count("issued:none");
         keep_or_close(w, t, a, ci, (x >= 0 && w.creds[x].kind == CK_ID) ? x : -1);
     };
@@ -351,7 +361,7 @@ static void prop(Tape &t, Ctx &c) {
         if (a.tent) c.count(fmt("tentative:%s", ntkind.c_str()));
         judge(w, a, ci, base, h, never_sig, binder_attack, honest, what);
         int bound = -1;
-        if (a.outcome != O_FAILED) { int x = harvest(w, ci, a, 0, h); k.cred = x; k.dirty = false; if (a.outcome == O_RESUMED) bound = find_cred_by_secret(w, a.tent_secret); else if (x >= 0 && w.creds[x].kind == CK_ID) bound = x; }
+        if (a.outcome != O_FAILED) { int x = harvest(w, k.sid, ci, a, 0, h); k.cred = x; k.dirty = false; if (a.outcome == O_RESUMED) bound = find_cred_by_secret(w, a.tent_secret); else if (x >= 0 && w.creds[x].kind == CK_ID) bound = x; }
         else k.dirty = true;
         bool interesting = !honest || w.pre_expiry || w.pre_fatal || w.pre_flood || w.pre_keyrm;
         if (interesting) { did_nontrivial = true; nontrivial_after(w, ntkind + (w.pre_expiry ? "+exp" : "") + (w.pre_fatal ? "+fatal" : "") + (w.pre_flood ? "+flood" : "") + (w.pre_keyrm ? "+keyrm" : ""), a.outcome); }
@@ -366,10 +376,55 @@ static void prop(Tape &t, Ctx &c) {
     };
     auto matching_hello = [&](const Cred &cr) { return Hello{ cr.ver, cr.ems || cr.kind == CK_PSK13 ? 0 : -1, { cr.suite }, cr.kind == CK_TICKET }; };
 
+    auto fatal_on = [&](size_t li, bool to_server, unsigned pos) {
+        Live L = std::move(w.live[li]); w.live.erase(w.live.begin() + li);
+        Pair &p = *L.p; static const uint8_t m[] = "x";
+        Endpoint &from = to_server ? p.c : p.s, &to = to_server ? p.s : p.c;
+        from.send(m, 1); Bytes rec = from.take_wire();
+        if (rec.size() > 6) rec[rec.size() - 1 - std::min<size_t>(pos, rec.size() - 6)] ^= 0x40;
+        to.feed(rec); p.run();
+        bool got = from.fatal_alert_recv >= 0;
+        w.note(fmt("FatalOn(c%d's session, corrupt record to %s, bound=%s)%s", L.client, to_server ? "server" : "client", cred_str(w, L.cred).c_str(), got ? "" : " [no alert seen]"));
+        c.count(got ? "cmd:fatal-on" : "cmd:fatal-on-no-alert");
+        if (got) { w.any_fatal = true; w.pre_fatal = true; if (L.cred >= 0 && w.creds[L.cred].kind == CK_ID) w.creds[L.cred].invalidated = true; }
+        L.p.reset();                                    // the application deletes both ends right away, as it must after a fatal alert
+    };
+    auto close_live = [&](size_t li, bool notify) {
+        Live L = std::move(w.live[li]); w.live.erase(w.live.begin() + li);
+        if (notify) { L.p->c.send_close(); L.p->run(); L.p->s.send_close(); L.p->run(); }
+        w.note(fmt("Close(c%d's session,%s)", L.client, notify ? "close_notify" : "drop")); c.count("cmd:close");
+    };
+    auto honest_resume = [&](int ci, int x) {
+        if (w.cl[ci].cred != x || w.cl[ci].dirty) install(w, ci, x);
+        const Cred cr = w.creds[x]; Hello h = matching_hello(cr);
+        std::string kind = fmt("Resume-%s", ck_name[cr.kind]);
+        w.note(fmt("%s(c%d,%s)", kind.c_str(), ci, cred_str(w, x).c_str()));
+        do_attempt(ci, x, h, kind, "", false, true, nullptr, kind);
+    };
+
+    // Scripted prefix (1 case in 6): history shapes that random command choice reaches too rarely - several live connections
+    // of ONE cached session, one of which dies with a fatal alert while another is closed normally before/after.
+    if (t.chance(1, 6)) {
+        int ver = (int) t.below(2); auto cand = case_suites(w, ver); const Suite &su = cand[t.below(cand.size())];
+        c.count("case:scripted-shared-slot");
+        w.force_keep = 1; do_full(0, 0, ver, su, t.chance(1, 4) ? -1 : 0, false);
+        int x = w.cl[0].cred;
+        if (x >= 0 && w.creds[x].kind == CK_ID) {
+            size_t extra = 1 + t.below(2);
+            for (size_t i = 0; i < extra; i++) { w.force_keep = t.chance(3, 4) ? 1 : 0; honest_resume(0, x); }
+            w.force_keep = -1;
+            size_t acts = 1 + t.below(3);
+            for (size_t i = 0; i < acts && !w.live.empty(); i++) { if (i == 0 || t.coin()) fatal_on(t.below(w.live.size()), t.coin(), (unsigned) t.below(8)); else close_live(t.below(w.live.size()), t.coin()); }
+            while (!w.live.empty() && t.chance(2, 3)) close_live(t.below(w.live.size()), t.coin());
+            honest_resume(0, x);
+        }
+        w.force_keep = -1;
+    }
+
     for (size_t step = 0; step < ncmd; step++) {
         unsigned op = (unsigned) t.below(100);
         bool anycred = pick_holder(7) >= 0 || !w.creds.empty();
-        if (!anycred && op >= 18 && op < 78) op = 0;     // nothing to resume/attack yet: do a full handshake instead
+        if (!anycred && op >= 18 && op < 80) op = 0;     // nothing to resume/attack yet: do a full handshake instead
         if (op < 18) {                                    // ---- Full
             int ci = (int) t.below(w.cl.size()); int ver = (int) t.below(3);
             auto cand = case_suites(w, ver); const Suite &su = cand[t.below(cand.size())];
@@ -377,7 +432,7 @@ static void prop(Tape &t, Ctx &c) {
             int srv_i = (tickets || ver == TLS13) && t.chance(1, 6) ? 1 : 0;   // B only ever mints tickets (it must stay out of the shared cache)
             if (srv_i) { need_B(); if (ver != TLS13) tickets = true; }
             do_full(ci, srv_i, ver, su, ems, tickets);
-        } else if (op < 48) {                             // ---- honest resume of what the client holds (or a re-installed earlier credential)
+        } else if (op < 46) {                             // ---- honest resume of what the client holds (or a re-installed earlier credential)
             int ci = pick_holder(7); int x;
             if (ci < 0 || t.chance(1, 5)) { ci = (int) t.below(w.cl.size()); x = (int) t.below(w.creds.size()); install(w, ci, x); c.count("reinstalled-credential"); }
             else { x = w.cl[ci].cred; if (w.cl[ci].dirty) install(w, ci, x); }
@@ -386,7 +441,7 @@ static void prop(Tape &t, Ctx &c) {
             std::string kind = fmt("Resume-%s", ck_name[cr.kind]);
             w.note(fmt("%s(c%d,%s)", kind.c_str(), ci, cred_str(w, x).c_str()));
             do_attempt(ci, x, h, kind, "", false, true, nullptr, kind);
-        } else if (op < 56) {                             // ---- attacker / misbehaving client: same credential, different hello parameters
+        } else if (op < 54) {                             // ---- attacker / misbehaving client: same credential, different hello parameters
             int ci = pick_holder(7); int x;
             if (ci < 0) { ci = (int) t.below(w.cl.size()); x = (int) t.below(w.creds.size()); } else x = w.cl[ci].cred;
             install(w, ci, x);
@@ -398,7 +453,7 @@ static void prop(Tape &t, Ctx &c) {
             }
             w.note(fmt("%s(c%d,%s -> %s ems=%d)", kind.c_str(), ci, cred_str(w, x).c_str(), ver_name(h.ver), h.ems == 0));
             do_attempt(ci, x, h, kind, "", false, false, nullptr, kind);
-        } else if (op < 70) {                             // ---- attacker edits the stored credential
+        } else if (op < 68) {                             // ---- attacker edits the stored credential
             int ci = pick_holder(7); int x;
             if (ci < 0) { ci = (int) t.below(w.cl.size()); x = (int) t.below(w.creds.size()); } else x = w.cl[ci].cred;
             install(w, ci, x);
@@ -416,15 +471,15 @@ static void prop(Tape &t, Ctx &c) {
                 case 2: { uint8_t ix = (uint8_t) t.below(c14_session_table_size()); if (ix == id[0]) ix = (uint8_t) ((ix + 1) % c14_session_table_size()); id[0] = ix; kind = "Id-other-slot-index"; sig = "altered-session-id-resumes"; break; }
                 case 3: for (size_t i = 4; i < id.size(); i++) id[i] = 0; kind = "Id-zero-tail"; sig = "altered-session-id-resumes"; break;
                 case 4: id = w.creds[y].ident; base = y; kind = "Id-swap"; sig = "swapped-session-id-resumes"; break;
-                default: id.resize(4 + t.below(12)); for (size_t i = 4; i < id.size(); i++) id[i] = t.u8(); kind = "Id-truncate-and-guess"; sig = "truncated-session-id-resumes"; if (id == Bytes(cr.ident.begin(), cr.ident.begin() + id.size())) id[4] ^= 1; break;
+                default: id.resize(5 + t.below(12)); for (size_t i = 4; i < id.size(); i++) id[i] = t.u8(); kind = "Id-truncate-and-guess"; sig = "truncated-session-id-resumes"; if (id == Bytes(cr.ident.begin(), cr.ident.begin() + id.size())) id.back() ^= 1; break;
                 }
                 c14_sid_set_id(k.sid, id.data(), (int) id.size());
             } else {
                 bool tk = cr.kind == CK_TICKET;
                 switch (e) {
-                case 0: { size_t pos = t.coin() ? id.size() - 1 - t.below(std::min<size_t>(32, id.size())) : t.below(id.size()); id[pos] ^= (uint8_t) (1 << t.below(8)); kind = tk ? "Ticket-flip" : "Psk-identity-flip"; sig = tk ? "altered-ticket-resumes" : "altered-psk-identity-resumes"; binder = !tk; break; }
-                case 1: id.resize(id.size() - 1 - t.below(std::min<size_t>(id.size() - 1, 40))); kind = tk ? "Ticket-truncate" : "Psk-identity-truncate"; sig = tk ? "truncated-ticket-resumes" : "truncated-psk-identity-resumes"; binder = !tk; break;
-                case 2: { size_t n = 1 + t.below(20); for (size_t i = 0; i < n; i++) id.push_back(t.u8()); kind = tk ? "Ticket-extend" : "Psk-identity-extend"; sig = tk ? "extended-ticket-resumes" : "extended-psk-identity-resumes"; binder = !tk; break; }
+                case 0: { size_t pos = t.coin() ? id.size() - 1 - t.below(std::min<size_t>(32, id.size())) : t.below(id.size()); id[pos] ^= (uint8_t) (1 << t.below(8)); kind = tk ? "Ticket-flip" : "Psk-identity-flip"; sig = tk ? "altered-ticket-resumes" : "altered-psk-identity-resumes"; break; }
+                case 1: id.resize(id.size() - 1 - t.below(std::min<size_t>(id.size() - 1, 40))); kind = tk ? "Ticket-truncate" : "Psk-identity-truncate"; sig = tk ? "truncated-ticket-resumes" : "truncated-psk-identity-resumes"; break;
+                case 2: { size_t n = 1 + t.below(20); for (size_t i = 0; i < n; i++) id.push_back(t.u8()); kind = tk ? "Ticket-extend" : "Psk-identity-extend"; sig = tk ? "extended-ticket-resumes" : "extended-psk-identity-resumes"; break; }
                 case 3: if (tk) { Bytes s = cr.secret; s[t.below(48)] ^= 1; c14_sid_set_master(k.sid, s.data()); kind = "Ticket-with-other-master-secret"; sig = "resumed-with-wrong-secret"; }
                         else { Bytes s = cr.secret; s[t.below(s.size())] ^= 1; c14_sid_set_psk_key(k.sid, s.data(), (int) s.size()); kind = "Psk-wrong-key(binder)"; sig = "psk-binder-not-verified"; binder = true; }
                         break;
@@ -440,19 +495,20 @@ static void prop(Tape &t, Ctx &c) {
             w.note(fmt("%s(c%d,%s%s)", kind.c_str(), ci, cred_str(w, x).c_str(), y >= 0 && base == y ? (" with identifier of " + cred_str(w, y)).c_str() : ""));
             // an identifier flipped/truncated/extended denotes no issued credential: if the server nevertheless enters resumption the secret check uses the original
             do_attempt(ci, base, h, kind, sig, binder, false, nullptr, kind);
-        } else if (op < 78) {                             // ---- attacker edits the first client flight on the wire (or breaks the handshake of an honest resume)
+        } else if (op < 77) {                             // ---- attacker edits the first client flight on the wire (or breaks the handshake of an honest resume)
             int ci = pick_holder(7); int x;
             if (ci < 0) { ci = (int) t.below(w.cl.size()); x = (int) t.below(w.creds.size()); } else x = w.cl[ci].cred;
             install(w, ci, x);
             const Cred cr = w.creds[x]; Hello h = matching_hello(cr);
-            unsigned e = (unsigned) t.below(6); uint32_t r1 = t.u16(), r2 = t.u8(); std::string kind; bool binder = false;
-            static const char *wn[] = { "Wire-id-truncate", "Wire-id-flip", "Wire-suite-replace", "Wire-binder-or-ticket-flip", "Wire-break-client-finished", "Wire-break-server-flight" };
+            unsigned e = (unsigned) t.below(7); uint32_t r1 = t.u16(), r2 = t.u8(); std::string kind; bool binder = false;
+            static const char *wn[] = { "Wire-id-truncate", "Wire-id-flip", "Wire-suite-replace", "Wire-binder-or-ticket-flip", "Wire-break-client-finished", "Wire-break-server-flight", "Wire-break-extensions" };
             kind = wn[e]; if (e == 3 && cr.kind == CK_PSK13) binder = true;
             bool edited = false;
             Mitm m = [&, e, r1, r2](int dir, int nth, Bytes &d, Pair &) {
                 Bytes before = d;
                 struct Cmp { Bytes &b, &d; bool &e; ~Cmp() { if (b != d) e = true; } } cmp{ before, d, edited };
-                if (dir == 0 && nth == 0 && e <= 3) {
+                if (dir == 0 && nth == 0 && e == 6) { CH ch = parse_ch(d); if (ch.ok && ch.ext_len_off) { d[ch.ext_len_off + 1] ^= 1; w.disturbed = true; } }
+                else if (dir == 0 && nth == 0 && e <= 3) {
                     CH ch = parse_ch(d); if (!ch.ok) return;
                     if (e == 0 && ch.sid_len > 1 && cr.kind == CK_ID) { size_t nl = 1 + r1 % (ch.sid_len - 1); d.erase(d.begin() + ch.sid_off + nl, d.begin() + ch.sid_off + ch.sid_len); d[ch.sid_len_off] = (uint8_t) nl; fix_lengths(d, -(long) (ch.sid_len - nl)); }
                     else if (e == 1 && ch.sid_len > 0) d[ch.sid_off + r1 % ch.sid_len] ^= (uint8_t) (1 << (r2 % 8));
@@ -467,7 +523,19 @@ static void prop(Tape &t, Ctx &c) {
             w.note(fmt("%s(c%d,%s)", kind.c_str(), ci, cred_str(w, x).c_str()));
             // the transcript differs between the two ends, so these can never complete as resumed
             do_attempt(ci, x, h, kind, "wire-edited-handshake-resumes", binder, false, m, kind, &edited);
-        } else if (op < 85) {                             // ---- AdvanceClock
+        } else if (op < 80) {                             // ---- TLS 1.3 full handshake whose legacy_session_id is a victim's cached id
+            std::vector<int> ids; for (size_t i = 0; i < w.creds.size(); i++) if (w.creds[i].kind == CK_ID) ids.push_back((int) i);
+            if (ids.empty()) { c.count("cmd:tls13-victim-id-no-id"); continue; }
+            int x = ids[t.below(ids.size())]; int ci = (int) t.below(w.cl.size()); Client &k = w.cl[ci];
+            matrixSslClearSessionId(k.sid); k.cred = -1; k.dirty = true;
+            Bytes id = w.creds[x].ident; if (t.chance(1, 3)) { for (size_t i = 4; i < id.size(); i++) id[i] = 0; }   // or just "slot index + zeros"
+            unsigned char junk[48]; t.bytes(junk, 48); auto cand = case_suites(w, TLS13); const Suite &su = cand[t.below(cand.size())];
+            c14_sid_set_cipher(k.sid, su.id); c14_sid_set_master(k.sid, junk); c14_sid_set_id(k.sid, id.data(), (int) id.size());
+            Hello h{ TLS13, 0, { su.id }, false };
+            w.note(fmt("Tls13-hello-with-victim-id(c%d,%s)", ci, cred_str(w, x).c_str()));
+            w.disturbed = true;
+            do_attempt(ci, -1, h, "Tls13-hello-with-victim-id", "tls13-hello-with-cached-id-resumes", false, false, nullptr, "Tls13-hello-with-victim-id");
+        } else if (op < 86) {                             // ---- AdvanceClock
             static const int64_t D[] = { 1000, 59000, 358000, 363000, 3600000, 0 /*LIFE-5s*/, 1 /*LIFE+5s*/, 90000000, 200000000 };
             size_t i = t.below(9); int64_t dt = D[i]; if (i == 5) dt = LIFE - 5000; if (i == 6) dt = LIFE + 5000;
             vfh_clock_advance_ms(dt); w.note(fmt("AdvanceClock(%llds)", (long long) (dt / 1000)));
@@ -475,32 +543,22 @@ static void prop(Tape &t, Ctx &c) {
             c.count("cmd:advance-clock");
         } else if (op < 90) {                             // ---- FatalOn(live session)
             if (w.live.empty()) { c.count("cmd:fatal-no-live-session"); continue; }
-            size_t li = t.below(w.live.size()); Live L = std::move(w.live[li]); w.live.erase(w.live.begin() + li);
-            bool to_server = t.coin(); Pair &p = *L.p; static const uint8_t m[] = "x";
-            Endpoint &from = to_server ? p.c : p.s, &to = to_server ? p.s : p.c;
-            from.send(m, 1); Bytes rec = from.take_wire();
-            if (rec.size() > 6) rec[rec.size() - 1 - t.below(std::min<size_t>(rec.size() - 5, 8))] ^= 0x40;
-            to.feed(rec); p.run();
-            bool got = from.fatal_alert_recv >= 0;
-            w.note(fmt("FatalOn(c%d's session, corrupt record to %s, bound=%s)%s", L.client, to_server ? "server" : "client", cred_str(w, L.cred).c_str(), got ? "" : " [no alert seen]"));
-            c.count(got ? "cmd:fatal-on" : "cmd:fatal-on-no-alert");
-            if (got) { w.any_fatal = true; w.pre_fatal = true; if (L.cred >= 0 && w.creds[L.cred].kind == CK_ID) w.creds[L.cred].invalidated = true; }
-            L.p.reset();                                    // the application deletes both ends right away, as it must after a fatal alert
+            fatal_on(t.below(w.live.size()), t.coin(), (unsigned) t.below(8));
         } else if (op < 93) {                             // ---- Close / drop a live session
             if (w.live.empty()) { c.count("cmd:close-no-live-session"); continue; }
-            size_t li = t.below(w.live.size()); Live L = std::move(w.live[li]); w.live.erase(w.live.begin() + li);
-            bool notify = t.coin(); if (notify) { L.p->c.send_close(); L.p->run(); L.p->s.send_close(); L.p->run(); }
-            w.note(fmt("Close(c%d's session,%s)", L.client, notify ? "close_notify" : "drop")); c.count("cmd:close");
+            close_live(t.below(w.live.size()), t.coin());
         } else if (op < 96) {                             // ---- Flood
             size_t n = t.coin() ? 32 + t.below(9) : 1 + t.below(31); bool keep = t.chance(1, 3);
             Suite psk = suites()[18];
             for (size_t i = 0; i < n; i++) {
-                std::unique_ptr<Pair> p(new Pair); Config cc, sc; cc.client = true; sc.client = false; sc.versions = { TLS13, TLS12, TLS11 }; cc.versions = { TLS12 };
-                cc.suites = { psk.id }; cc.keys = w.ckeys; sc.keys = w.A.keys; cc.entropy_stream = 13; sc.entropy_stream = 14;
-                if (p->s.open(sc) < 0 || p->c.open(cc) < 0) throw Discard{};
-                bool ok = p->run() && p->c.alive() && p->s.alive(); if (!ok) { c.count("flood-handshake-failed"); w.any_failure = true; }
-                w.registrations++;
-                if (keep && ok && w.flood_open.size() < 40) w.flood_open.push_back(std::move(p));
+                // throw-away clients, but their ids stay in the model so that later commands can present them (eviction / slot reuse histories)
+                sslSessionId_t *fs = nullptr; if (matrixSslNewSessionId(&fs, NULL) < 0) throw Discard{};
+                struct G { sslSessionId_t *s; ~G() { matrixSslDeleteSessionId(s); } } g{ fs };
+                Hello h{ TLS12, 0, { psk.id }, false };
+                Attempt a = run_hs(w, w.A, fs, h, nullptr); w.registrations++;
+                if (a.outcome != O_FULL) { c.count("flood-handshake-failed"); w.any_failure = true; continue; }
+                int x = harvest(w, fs, -1, a, 0, h);
+                if (keep && w.flood_open.size() < 40) { if (x >= 0) w.live_flood_cred.push_back(x); w.flood_open.push_back(std::move(a.p)); }
             }
             w.flooded = true; if (n >= 32) w.pre_flood = true;
             w.note(fmt("Flood(%zu,%s)", n, keep ? "kept-open" : "closed")); c.count(n >= 32 ? "cmd:flood>=32" : "cmd:flood<32");
